@@ -20,7 +20,8 @@ def main(ctx):
         J.append({'mod': MOD, 'fn': 'nested', 'mode': 'sym', 'args': {'method': method, 'ws': 3, 'H': 3, 'W': 6 if method != 'census' else 5,
                                                                         'inner': list(inner), 'outer': list(outer), 'masks': i % 2 == 0, 'cap': cap}})
     # per-pixel grids: the measure inside each pixel's interval, NaN outside; constant grid == scalar interval (C02 oracle)
-    for kw in (dict(grids=True, masks=False), dict(grids=True, masks=True, H=3, W=5, dmin=-2, dmax=1), dict(grids=True, method='census', masks=False, H=3, W=5)):
+    for kw in (dict(grids=True, masks=False), dict(grids=True, masks=True, H=3, W=5, dmin=-2, dmax=1), dict(grids=True, method='census', masks=False, H=3, W=5),
+               dict(grids='frac', masks=True, H=3, W=5, dmin=-2, dmax=1)):       # non-integer grid values
         J.append({'mod': MOD, 'fn': 'cost_volume', 'mode': 'sym', 'args': dict(kw, cap=cap)})
     # every valid pixel's disparity stays in the interval after refinement (incl. after a filter); stored interval == searched
     for method in ('vfit', 'quadratic'):
